@@ -128,6 +128,16 @@ def play_case(case_id: str, seed: int, force_variant=None, profile=None, max_ops
             if dead > 25:
                 stats['stuck'] += 1
                 break
+    if not getattr(sess, 'crashed', False) and extra.get('variant'):
+        try:
+            import phh as _phh
+            from pokerkit import HandHistory as _HH
+            g = _phh.game_of(sess)
+            if g is not None and type(g) in _HH.variants:
+                sess.phh(g, True)
+                sess.phh(g, False)
+        except Exception as e:  # noqa: BLE001
+            stats['phh_exc:' + type(e).__name__] += 1
     meta['ops'] = nop
     meta['terminal'] = not s.status
     meta['nlog'] = len(s.operations)
